@@ -21,7 +21,7 @@ import (
 
 // TOp is one step of a TokenLimiter history; the first step of every path is the configuration.
 type TOp struct {
-	K     string `json:"k"`               // cfg | allow | adv | outage | blip
+	K     string `json:"k"`               // cfg | allow | adv | outage | blip | noscript | wipe
 	Rate  int    `json:"rate,omitempty"`  // cfg
 	Burst int    `json:"burst,omitempty"` // cfg
 	I     int    `json:"i,omitempty"`     // allow: instance 1|2
@@ -30,6 +30,8 @@ type TOp struct {
 	Dead  string `json:"dead,omitempty"`  // allow: "" | "deadline" | "canceled" — AllowNCtx under a context that has already ended
 	On    bool   `json:"on,omitempty"`    // outage
 	Hard  bool   `json:"hard,omitempty"`  // outage: close / restart the server instead of SetError
+	Ping  bool   `json:"ping,omitempty"`  // outage: partial — the store still answers PING, every other command is refused
+	Short bool   `json:"short,omitempty"` // allow: the shorthand entry points — #1 Allow(), #2 AllowCtx(ctx): now = the limiter's own time.Now(), n = 1
 }
 
 func (o TOp) String() string {
@@ -37,6 +39,11 @@ func (o TOp) String() string {
 	case "cfg":
 		return fmt.Sprintf("TokenLimiter(rate=%d,burst=%d)x2", o.Rate, o.Burst)
 	case "allow":
+		if o.Short && o.I == 1 {
+			return "Allow#1()"
+		} else if o.Short {
+			return fmt.Sprintf("AllowCtx#%d(ctx)", o.I)
+		}
 		if o.Dead != "" {
 			return fmt.Sprintf("AllowNCtx#%d(ctx %s,now,%d)", o.I, o.Dead, o.N)
 		}
@@ -51,12 +58,19 @@ func (o TOp) String() string {
 		if o.Hard {
 			h = "(server closed/restarted)"
 		}
+		if o.Ping {
+			h = "(PING still answered)"
+		}
 		if o.On {
 			return "outage-begins" + h
 		}
 		return "outage-ends" + h
 	case "blip":
 		return fmt.Sprintf("next-%d-store-command(s)-fail", o.N)
+	case "noscript":
+		return "server-loses-script-cache"
+	case "wipe":
+		return "server-loses-data-and-script-cache"
 	}
 	return o.K
 }
@@ -129,7 +143,12 @@ type tokenWorld struct {
 	shared      *bucket
 	loc         map[int]*local
 	down        bool
+	lost        bool // the server lost its script cache at some point of the history (cause key only)
 }
+
+// ttlZero: the cause key of the repaired tokenscript defect (ttl = 0 when 2·burst < rate) is only
+// used where nothing else in the history can explain a fall to the in-process limiter.
+func (w *tokenWorld) ttlZero() bool { return 2*w.burst < w.rate && !w.lost }
 
 func newTokenWorld(rate, burst int) *tokenWorld {
 	return &tokenWorld{rate: rate, burst: burst, shared: &bucket{rate: rate, burst: burst, tokens: burst},
@@ -164,7 +183,7 @@ func (w *tokenWorld) judgeAllowCtx(inst, n int, nowMs int64, before, after instS
 		want := w.shared.take(sec, n)
 		if !after.alive && got == want {
 			cls := "token:fell-to-rescue-while-reachable"
-			if 2*w.burst < w.rate {
+			if w.ttlZero() {
 				cls = "token-ttl-zero-falls-to-rescue"
 			} else if dead != "" {
 				cls += ":ended-context"
@@ -179,7 +198,7 @@ func (w *tokenWorld) judgeAllowCtx(inst, n int, nowMs int64, before, after instS
 		}
 		if got != want {
 			switch {
-			case !after.alive && 2*w.burst < w.rate:
+			case !after.alive && w.ttlZero():
 				class = "token-ttl-zero-falls-to-rescue"
 				msg = fmt.Sprintf("store reachable, instance #%d in store mode, yet the call fell back to its in-process limiter (tokenscript.lua: ttl = floor(2*%d/%d) = 0, SETEX rejects 0): ", inst, w.burst, w.rate)
 			case !after.alive:
@@ -281,10 +300,14 @@ func runTokenOnce(path []TOp, verbose bool) runResult {
 				before := state(o.I)
 				armed := e.oneShot.Load()
 				var got bool
-				switch o.Dead {
-				case "":
+				switch {
+				case o.Short && o.I == 1: // Allow() = AllowN(time.Now(), 1); core/limit's time.Now is the virtual clock
+					e.counted(func() { got = lims[o.I].Allow() })
+				case o.Short:
+					e.counted(func() { got = lims[o.I].AllowCtx(context.Background()) })
+				case o.Dead == "":
 					e.counted(func() { got = lims[o.I].AllowN(now, o.N) })
-				case "canceled":
+				case o.Dead == "canceled":
 					ctx, cancel := context.WithCancel(context.Background())
 					cancel()
 					e.counted(func() { got = lims[o.I].AllowNCtx(ctx, now, o.N) })
@@ -331,9 +354,15 @@ func runTokenOnce(path []TOp, verbose bool) runResult {
 					}
 				}
 			case "outage":
-				if o.Hard {
+				switch {
+				case o.Hard:
 					e.hardFault(o.On)
-				} else {
+				case o.Ping:
+					// the limiter's script does not get through: for the limiter the store is not
+					// usable, only the local bound is demanded — over the WHOLE partial outage,
+					// however often the monitor (whose PING succeeds) switches back to store mode
+					e.partial(o.On)
+				default:
 					e.fault(o.On)
 				}
 				w.outage(o.On)
@@ -347,6 +376,25 @@ func runTokenOnce(path []TOp, verbose bool) runResult {
 				if verbose {
 					fmt.Printf("  step %d %v\n", i, o)
 				}
+			case "noscript":
+				// the server forgets its cached scripts (SCRIPT FLUSH; what a restart with persisted
+				// data or a failover to a replica does): data untouched, store REACHABLE — the
+				// reference does not change and the recovery clock (upSince) keeps running
+				e.loseScripts()
+				w.lost = true
+				if verbose {
+					fmt.Printf("  step %d %v; store %s scripts cached %s\n", i, o, tokenStoreDump(e, lims[1], nowMs), e.scriptBits())
+				}
+			case "wipe":
+				// restart without persistence: data and script cache gone, store reachable. The
+				// bucket of the key IS the store's {key}.tokens/{key}.ts: without them it is a
+				// never-used, i.e. full, bucket (sec 0: the next refill caps it at burst anyway)
+				e.wipe()
+				w.lost = true
+				w.shared = &bucket{rate: w.rate, burst: w.burst, tokens: w.burst}
+				if verbose {
+					fmt.Printf("  step %d %v\n", i, o)
+				}
 			}
 		}
 		// state key: configuration ⊕ shared bucket (refilled to now) ⊕ sub-second phase ⊕ outage ⊕
@@ -357,12 +405,13 @@ func runTokenOnce(path []TOp, verbose bool) runResult {
 			s := state(k)
 			p = append(p, fmt.Sprintf("#%d:%v/%v/%.3f/%d", k, s.alive, s.monitor, s.rescue, w.loc[k].debt))
 		}
-		res.key = fmt.Sprintf("%v|bucket=%d|phase=%d|down=%v|blip=%d|up=%v|%s|timers=%d|%s", cfg, w.shared.tokens, nowMs%1000, w.down, e.oneShot.Load(), upSince >= 100,
-			strings.Join(p, " "), vsched.PendingTimers(), tokenStoreDump(e, lims[1], nowMs))
+		res.key = fmt.Sprintf("%v|bucket=%d|phase=%d|down=%v%v|blip=%d|up=%v|%s|timers=%d|%s|scripts=%s", cfg, w.shared.tokens, nowMs%1000, w.down, e.pingOnly.Load(), e.oneShot.Load(), upSince >= 100,
+			strings.Join(p, " "), vsched.PendingTimers(), tokenStoreDump(e, lims[1], nowMs), e.scriptBits()[1:])
 	}
 	ex := vsched.RunSeq(body)
 	e.hardFault(false)
 	e.fault(false)
+	e.partial(false)
 	e.failNext(0)
 	if ex.Outcome != "ok" && res.err == "" {
 		res.err = fmt.Sprintf("%v %v: execution ended with %s: blocked %v panics %v", cfg, path[1:], ex.Outcome, ex.Blocked(), ex.Panics())
@@ -382,16 +431,23 @@ func tokenConfigs() []TOp {
 
 // tokenAlphabet: maxBlips = number of one-shot faults offered per history; last = the op is the
 // last one of the history (arming a fault that nothing can hit any more is not offered).
-func tokenAlphabet(path []TOp, maxBlips int, last bool) []TOp {
+func tokenAlphabet(path []TOp, maxBlips, maxFlushes int, shorthands, partials, last bool) []TOp {
 	cfg := path[0]
 	down, lastBlip, blips := false, false, 0
+	pingOK := false // the outage in progress is a partial one
+	lastFlush, flushes := false, 0
 	for _, o := range path {
 		if o.K == "outage" {
 			down = o.On
+			pingOK = o.On && o.Ping
 		}
 		lastBlip = o.K == "blip"
 		if lastBlip {
 			blips++
+		}
+		lastFlush = o.K == "noscript"
+		if lastFlush {
+			flushes++
 		}
 	}
 	var ns []int
@@ -408,6 +464,12 @@ func tokenAlphabet(path []TOp, maxBlips int, last bool) []TOp {
 			ops = append(ops, TOp{K: "allow", I: i, N: n})
 		}
 	}
+	// the shorthand entry points (now = the limiter's own clock, n = 1): they lead to the states
+	// of AllowN#i(now,1), so they only add transitions — thorough tier; the quick tier has them in
+	// the scripted histories of real.go
+	if shorthands {
+		ops = append(ops, TOp{K: "allow", I: 1, N: 1, Short: true}, TOp{K: "allow", I: 2, N: 1, Short: true})
+	}
 	// calls under a context that has already ended (deadline passed / cancelled)
 	ops = append(ops, TOp{K: "allow", I: 1, N: 1, Dead: "deadline"}, TOp{K: "allow", I: 2, N: 1, Dead: "canceled"})
 	fill := int64(2*cfg.Burst*1000/cfg.Rate) + 1000
@@ -418,11 +480,21 @@ func tokenAlphabet(path []TOp, maxBlips int, last bool) []TOp {
 			ops = append(ops, TOp{K: "adv", Ms: ms})
 		}
 	}
-	ops = append(ops, TOp{K: "outage", On: !down})
+	ops = append(ops, TOp{K: "outage", On: !down, Ping: pingOK})
+	// partial outage (PING answered, scripts refused): thorough tier; quick has scripted ones (hard.go)
+	if partials && !down {
+		ops = append(ops, TOp{K: "outage", On: true, Ping: true})
+	}
 	// one-shot faults: exactly the next 1 / 2 store commands fail (a lost command, a very short
 	// flap); re-arming right after arming only overwrites the counter
 	if !down && !lastBlip && !last && blips < maxBlips {
 		ops = append(ops, TOp{K: "blip", N: 1}, TOp{K: "blip", N: 2})
+	}
+	// the server loses its script cache while staying reachable — also in the middle of an outage
+	// (down, lost, up = a restart with persisted data); flushing an empty cache again changes
+	// nothing, and nothing can notice a loss placed at the very end
+	if !lastFlush && !last && flushes < maxFlushes {
+		ops = append(ops, TOp{K: "noscript"})
 	}
 	return ops
 }
